@@ -892,6 +892,9 @@ class Exec(object):
         raise Unsupported("index into %r" % (base,))
 
     def norm_index(self, lst, idx, st, node):
+        if isinstance(idx, VOpt):
+            self.safety(st, node, z3.Not(idx.isnone), "TypeError", "index_none")
+            idx = idx.val
         i = toint(idx)
         self.safety(st, node, z3.And(i >= -lst.n, i < lst.n), "IndexError", "index")
         return z3.simplify(z3.If(i < 0, i + lst.n, i))
@@ -1491,7 +1494,9 @@ class Exec(object):
             if isinstance(v, (VStr, str)):
                 s = tostr(v)
                 self.safety(st, node, IS_INT_LIT(s), "ValueError", "int_literal")
-                self.trusted.add("int(str): uninterpreted str_to_int / is_int_literal (axiom: none beyond functionality)")
+                self.trusted.add("int(str): uninterpreted py_str_to_int / py_is_int_literal; axiom: a string for which "
+                                 "isdigit() holds and int() succeeds denotes a non-negative integer")
+                st.assume(z3.Implies(z3.And(IS_DIGIT(s), IS_INT_LIT(s)), STR_TO_INT(s) >= 0))
                 return VInt(STR_TO_INT(s))
             raise Unsupported("int() of %r" % (v,))
         if name == "sum":
@@ -1606,6 +1611,15 @@ class Exec(object):
             reg.append((t, r, pre, suf))
             st.env["$splits"] = reg
             return VInt(r)
+        if meth == "split" and len(args) == 1 and isinstance(args[0], str) and len(args[0]) == 1:
+            self.trusted.add("str.split(c): uninterpreted list py_split(s, c); axioms: at least one piece, no piece contains c")
+            lst = spec_split(VStr(t), args[0])
+            j = z3.Int(fresh_name("sp"))
+            st.assume(lst.n >= 1)
+            st.assume(z3.ForAll([j], z3.Implies(z3.And(0 <= j, j < lst.n),
+                                                z3.Not(z3.Contains(lst.get(j).t, z3.StringVal(args[0])))),
+                                patterns=[lst.get(j).t]))
+            return lst
         if meth == "isdigit":
             self.trusted.add("str.isdigit: uninterpreted predicate, axiom isdigit(s) -> len(s) > 0")
             st.assume(z3.Implies(IS_DIGIT(t), z3.Length(t) > 0))
@@ -1625,6 +1639,16 @@ IS_INT_LIT = z3.Function("py_is_int_literal", sym.StrS, sym.BoolS)
 STR_TO_INT = z3.Function("py_str_to_int", sym.StrS, IntS)
 STR_LOWER = z3.Function("py_lower", sym.StrS, sym.StrS)
 INT_TO_STR = z3.Function("py_int_to_str", IntS, sym.StrS)
+
+
+SPLIT_LEN = z3.Function("py_split_len", sym.StrS, sym.StrS, IntS)
+SPLIT_EL = z3.Function("py_split_el", sym.StrS, sym.StrS, IntS, sym.StrS)
+
+
+def spec_split(s, sep):
+    """the list s.split(sep) as a spec-level value (same term for the same s)"""
+    st_, sp = tostr(s), z3.StringVal(sep)
+    return VList(SPLIT_LEN(st_, sp), get=lambda i: VStr(SPLIT_EL(st_, sp, i)), et=STR)
 
 
 def int_to_str(t):
